@@ -408,6 +408,10 @@ def r13_10(ctx) -> None:
 
 
 def run(ctx) -> None:
+    from .c19 import r19_13 as _r19_13
+    ctx.guard_as("R13.13", _r19_13)  # the thumbprint is that of the key material that was loaded: an imported octet buffer is copied, not shared with the caller
+    from .c14 import r14_4_5 as _r14_4_5
+    ctx.guard_as("R13.12", _r14_4_5)  # "stays stable across repeated exports": a key set export assigns the kid BEFORE it takes the key's dict view
     from .common import octet_length_lint as _oll
     ctx.guard(_oll, "R13.11")  # thumbprint input members have the RFC length for every key size (ceil, not floor)
     from .common import forwarding_discipline
